@@ -1,3 +1,4 @@
+pub mod ffs;
 pub mod fl;
 pub mod keccak;
 pub mod sampler;
